@@ -306,6 +306,39 @@ Section Refine.
       cbn [snd]; rewrite nth_error_app2 by lia; rewrite Hlen, Nat.sub_diag; reflexivity.
   Qed.
 
+  (* binds, searches and the Users() probe read and never write: any number of
+     them - failed guesses included - leaves the directory as it was, so no run
+     of bind attempts changes what a later bind is answered *)
+  Definition read_only (o : dop) : bool :=
+    match o with DBind _ _ | DSearch _ _ | DUsers => true | _ => false end.
+
+  Lemma read_only_step d o : read_only o = true -> fst (dstep eqfold replfix d o) = d.
+  Proof.
+    destruct o; cbn [read_only]; try discriminate; intros _; unfold dstep; cbn [dstep_with fst]; try reflexivity.
+    destruct (handle_search _ _ _ _ _); reflexivity.
+  Qed.
+
+  Theorem read_only_run ops : forall d, forallb read_only ops = true -> fst (drun eqfold replfix d ops) = d.
+  Proof.
+    unfold drun. induction ops as [|o r IH]; intros d H; [reflexivity|].
+    cbn [forallb] in H. apply andb_true_iff in H. destruct H as [Ho Hr].
+    cbn [drun_with]. pose proof (read_only_step d o Ho) as Hs.
+    destruct (dstep eqfold replfix d o) as [d1 x]. cbn [fst] in Hs. subst d1.
+    specialize (IH d Hr). destruct (drun_with _ d r) as [d2 xs]. exact IH.
+  Qed.
+
+  Theorem bind_after_reads d0 pre reads dn pw post :
+    forallb read_only reads = true ->
+    nth_error (snd (drun eqfold replfix d0 (pre ++ reads ++ DBind dn pw :: post))) (length pre + length reads) =
+    Some {| res_code := handle_bind (fst (drun eqfold replfix d0 pre)) dn pw; res_entries := [] |}.
+  Proof.
+    intros Hr. pose proof (bind_in_history d0 (pre ++ reads) dn pw post) as [Hb _].
+    cbn zeta in Hb. rewrite <- app_assoc, app_length in Hb. rewrite Hb. clear Hb.
+    rewrite drun_app. pose proof (read_only_run reads (fst (drun eqfold replfix d0 pre)) Hr) as H.
+    destruct (drun eqfold replfix d0 pre) as [d1 xs]. cbn [fst] in *.
+    destruct (drun eqfold replfix d1 reads) as [d2 ys]. cbn [fst] in *. subst d2. reflexivity.
+  Qed.
+
   (* a history whose every operation is usable in the state it meets *)
   Fixpoint hist_ok (d : dir) (ops : list dop) : Prop :=
     match ops with
